@@ -10,6 +10,8 @@ from .graph import Graph, Val, show
 from .model import ABC_MOD, ClassInfo, ExtClass, FuncInfo, Inst, Method, Opaque, Prop, BoundCM
 from .interp_expr import ExprMixin
 
+import sys
+sys.setrecursionlimit(20000)
 MAX_DEPTH = 40
 
 BUILTIN_EXC = {
@@ -232,16 +234,23 @@ class Builder(ExprMixin):
         """Inline a call of ``func``.  Returns (preds, return value)."""
         if not preds:
             return set(), Val("unknown", "dead")
-        key = (func, show(recv) if recv is not None else None)
+        # activations are distinguished by the abstract counter state too: the
+        # suspend depth decides which branches a re-entered _load/_save takes
+        key = (func, show(recv) if recv is not None else None, tuple(sorted((str(k), str(v)) for k, v in self.counts.items())))
+        via_child = getattr(self, "_child_dispatch", False)
+        self._child_dispatch = False
         child_cut = (
-            recv is not None
+            via_child
+            and recv is not None
             and recv.kind == "inst"
-            and recv.args[1] == "nested"
             and any(f.func is func and f.recv is not None and f.recv.kind == "inst" for f in self.frames)
-            and not (self.frames and self.frames[-1].recv == recv)
-            and func.name not in ("_load", "_save")
         )
-        if child_cut or any(f.key == key for f in self.frames) or len(self.frames) >= MAX_DEPTH:
+        # re-entrant context managers (RLock-style nesting) are bounded by the
+        # suspend counter, not by this cut: cutting __enter__ but not __exit__
+        # would unbalance acquire / release.
+        same = sum(1 for f in self.frames if f.key == key)
+        limit = 3 if func.name in ("__enter__", "__exit__") else 1
+        if child_cut or same >= limit or len(self.frames) >= MAX_DEPTH:
             if len(self.frames) >= MAX_DEPTH:
                 raise AnalysisError(
                     "inlining depth bound hit at " + func.qualname + " via " + " > ".join(f.func.qualname for f in self.frames[-8:])
